@@ -46,6 +46,16 @@ where
     REG_CALLS += 1;
     REG_AT = lm::tlen();
     REG_NONBLOCK = lm::FD_NONBLOCK;
+    if signal_hook_registry::FORBIDDEN.contains(&_signal) {
+        // the registry refuses by its documented panic; while unwinding it drops the action it was
+        // given (A3) - which must release the descriptor (C14: everything captured is released)
+        drop(action);
+        let n = lm::tlen();
+        assert!(lm::count(lm::EV_CLOSE) == 1 && lm::at(n - 1).kind == lm::EV_CLOSE && lm::at(n - 1).a == lm::FD as i64,
+            "C14.PIPE-RELEASE: when the registration is refused for a forbidden signal the descriptor handed over is closed exactly once");
+        kani::cover!(true, "C14.cover: forbidden signal on the pipe front-end");
+        kani::assume(false);
+    }
     action();
     DELIVERY_END[0] = lm::tlen();
     action();
